@@ -87,6 +87,56 @@ def tropical_totals(g):
     return V
 
 
+def stream_log(ctx, n):
+    """agenda / treesum over the Log semiring on dependency-acyclic grammars whose contributions are hundreds of nats
+    apart (long-string log-probabilities next to O(1) weights); reference: the same recursion in log space with a stable logaddexp"""
+    import math
+
+    def ladd(x, y):
+        if x == float("-inf"):
+            return y
+        if y == float("-inf"):
+            return x
+        return max(x, y) + math.log1p(math.exp(-abs(x - y)))
+
+    gs = []
+    while len(gs) < n:
+        g = M.rand_grammar(ctx.rng, nN=ctx.rng.randint(1, 4), nrules=ctx.rng.randint(3, 9), weights=[Fraction(0), Fraction(-1), Fraction(-3, 2), Fraction(-800), Fraction(-1500), Fraction(-745), Fraction(-20)])
+        if M.dep_acyclic(g):
+            gs.append(g)
+    for hs in (0, 1, 2):
+        res = run_jobs([{"g": g, "sr": "log", "queries": [{"op": "agenda", "timeout": 60}, {"op": "naive", "timeout": 60}]} for g in gs], hashseed=hs)
+        for g, r in zip(gs, res):
+            ctx.dist("log:grammars")
+            NEG = float("-inf")
+            V = {X: NEG for X in M.nts_of(g)}
+            for _ in range(len(V) + 2):
+                Wn = {X: NEG for X in V}
+                for w, h, b in g["rules"]:
+                    v = float(Fraction(w))
+                    for k, x in b:
+                        if k == "N":
+                            v += V.get(x, NEG)
+                    Wn[h] = ladd(Wn[h], v)
+                V = Wn
+            for op, q in zip(("agenda", "naive"), r):
+                ctx.cov["oracle_cases"] += 1
+                if "err" in q:
+                    if not ctx.seen(f"{op}:log:error"):
+                        ctx.violation(f"{op}:log:error", f"{op}() over Log raised {q['err']}", {"kind": "total-error", "op": op, "sr": "log", "grammar": g, "error": q["err"]})
+                    continue
+                for X, wv in V.items():
+                    enc = q["ok"].get(M.ntname(X))
+                    v = NEG if enc is None else dec_val(enc)
+                    v = float(v) if not isinstance(v, str) else float("nan")
+                    ctx.count_case(("log", json.dumps(g), op, X, hs), nontrivial=wv != NEG)
+                    if not (v == wv or abs(v - wv) <= 1e-9 * max(1.0, abs(wv))):
+                        if not ctx.seen(f"{op}:log"):
+                            ctx.violation(f"{op}:log", f"{op}()[{M.ntname(X)}] = {v} over Log; the log of the total weight of its derivation trees is {wv}",
+                                          {"kind": "total", "op": op, "sr": "log", "grammar": g, "X": X, "observed": str(v), "expected": str(wv)})
+                        break
+
+
 def stream_tropical(ctx, n):
     """agenda over MaxPlus on UNTRIMMED grammars that contain a dead cycle fed by a terminal (X -> Y a, Y -> X):
     zero (-inf) updates circulate in that block; every other block must still get its value"""
@@ -235,6 +285,7 @@ def run(ctx):
                 check_vec(ctx, g, "float", op, q["ok"], want, hs, tol=1e-7)
     # (d) MaxPlus on untrimmed grammars with a dead cycle
     stream_tropical(ctx, 20 if quick else 150)
+    stream_log(ctx, 20 if quick else 150)
     # (e) expected length when a tiny weight carries a huge length (the update must not be dropped by a tolerance on the weight alone)
     stream_expectation(ctx, 6 if quick else 30)
 
